@@ -7,6 +7,17 @@ pub struct PeripheralStorage<'a> {
     inner: Option<Peripheral<'a>>,
 }
 
+#[cfg(feature = "verif-hooks")]
+impl<'a> PeripheralStorage<'a> {
+    /// Verification hook: a storage slot that already holds a peripheral, so that a harness can
+    /// hand sparse storages to `DpMaster::new`.
+    pub fn verif_occupied(peripheral: Peripheral<'a>) -> Self {
+        Self {
+            inner: Some(peripheral),
+        }
+    }
+}
+
 /// Handle that can be used to obtain a peripheral from the DP master.
 #[derive(Debug, Clone, Copy, PartialEq, Eq, Hash)]
 pub struct PeripheralHandle {
@@ -18,6 +29,14 @@ impl PeripheralHandle {
     #[inline(always)]
     pub fn address(self) -> u8 {
         self.address
+    }
+}
+
+#[cfg(feature = "verif-hooks")]
+impl PeripheralHandle {
+    /// Verification hook: the storage index of this handle.
+    pub fn verif_index(self) -> u8 {
+        self.index
     }
 }
 
